@@ -43,7 +43,18 @@ CheckDownload(e, line) ==
      (exp[i].code = e.res[i].code /\ exp[i].pos = e.res[i].pos /\ (exp[i].code = "neg" \/ exp[i].n = e.res[i].n))
      \/ Bad(line, "gridfs:download-step", <<i, e.script[i], exp[i]>>, e.res[i])
 
+(* one step on the file catalog of a bucket: result, catalog afterwards, chunks exactly for the files of the catalog *)
+Owners(ch) == {<<ch[i][1], ch[i][2]>> : i \in 1..Len(ch)}
+CheckCatalog(e, line) ==
+  LET x == CatStep(e.pre, e.op, e, e.C) IN
+  /\ (x.err = e.res.err \/ Bad(line, "gridfs:catalog-" \o e.op \o "-outcome", x.err, e.res.err))
+  /\ ((~x.err /\ ~e.res.err /\ e.op \in {"byname", "byid"}) =>
+        ((x.id = e.res.id /\ x.len = e.res.len /\ e.res.same) \/ Bad(line, "gridfs:catalog-" \o e.op \o "-wrong-file", <<x.id, x.len>>, e.res)))
+  /\ (x.files = e.post \/ Bad(line, "gridfs:catalog-" \o e.op \o "-files", x.files, e.post))
+  /\ (Owners(e.postchunks) = ChunkOwners(e.post, e.C) \/ Bad(line, "gridfs:catalog-" \o e.op \o "-chunks", ChunkOwners(e.post, e.C), e.postchunks))
+
 Checked == l # 0 => CASE Trace[l].fn = "upload" -> CheckUpload(Trace[l], l)
+                      [] Trace[l].fn = "catalog" -> CheckCatalog(Trace[l], l)
                       [] Trace[l].fn = "download" -> CheckDownload(Trace[l], l)
                       [] OTHER -> TRUE
 =============================================================================
